@@ -142,6 +142,22 @@ psRes_t validateRecordHdrVersion(ssl_t *ssl)
     }
 # endif
 
+# ifdef USE_DTLS
+    /* A DTLS client does not know the negotiated version when it builds its
+       ClientHello, and every retransmission of that flight is the same
+       record: OpenSSL always sends it with the DTLS 1.0 record version.
+       When our ServerHello flight is lost, such a retransmission reaches a
+       server that has already negotiated DTLS 1.2. It is a repeated
+       handshake message (answered by resending our flight), not a protocol
+       violation. */
+    if (!ok && (ssl->flags & SSL_FLAGS_SERVER)
+            && ssl->rec.type == SSL_RECORD_TYPE_HANDSHAKE
+            && NGTD_VER(ssl, v_dtls_any) && (recordVer & v_dtls_any))
+    {
+        ok = PS_TRUE;
+    }
+# endif
+
     if (ok)
     {
         return MATRIXSSL_SUCCESS;
